@@ -20,6 +20,7 @@ func main() {
 		{Name: "mat-ctor", Gen: genMatCtor},
 		{Name: "mat-shape", Gen: genMatShape},
 		{Name: "mat-band", Gen: genMatBand},
+		{Name: "mat-cap", Gen: genMatCap},
 	}
 	vlib.Main("C07", groups...)
 }
